@@ -118,6 +118,7 @@ def main():
     ap.add_argument("--budget", type=int, default=12)
     ap.add_argument("--workers", type=int, default=5)
     ap.add_argument("--only", default="")
+    ap.add_argument("--ops", default="", help="comma separated operator prefixes to keep (e.g. sibling-field,delete-call)")
     ap.add_argument("--out", default=ROOT + "/mutsweep/results.jsonl")
     args = ap.parse_args()
     files = [f for f in FILES if not args.only or any(f.endswith(o) for o in args.only.split(","))]
@@ -126,6 +127,8 @@ def main():
     if rc != 0:
         print(o); sys.exit(2)
     muts = [json.loads(l) for l in o.splitlines() if l.startswith("{")]
+    if args.ops:
+        muts = [m for m in muts if any(m["op"].startswith(p) for p in args.ops.split(","))]
     done = set()
     if os.path.exists(args.out):
         for l in open(args.out):
